@@ -186,16 +186,27 @@ def wrapper_siblings(ctx, rule="R19.2"):
             ctx.check(not guards, rule, site, "no normality requirement (transformation does not use mean/var)", "no-guard")
     # apply() dispatch covers every public transformation
     ap = prog.func(TF, "apply")
-    disp = {}
-    for s in ap.body:
-        if isinstance(s, ast.If) and len(s.body) == 1 and isinstance(s.body[0], ast.Return) and isinstance(s.body[0].value, ast.Call):
-            disp[ast.unparse(s.test)] = s.body[0].value.func.id
+    from ..dispatch import DispatchError, select
     from .C20 import exported_names
 
     public = [n for n in exported_names(tf) if n not in ("apply", "apply_function")]
-    ctx.check(sorted(set(disp.values()) - {"apply_function"}) == sorted(public), rule, TF + "::apply", "dispatch reaches every exported transformation: %s" % sorted(disp.values()), "dispatch")
-    okn = all((("== '%s'" % v) in k) or (("endswith('%s')" % v.replace("normal_to_", "").replace("normal_", "").replace("apply_", "")) in k) for k, v in disp.items())
-    ctx.check(okn, rule, TF + "::apply", "each method string selects the transformation of that name", "dispatch-names")
+    key_param = ap.args.args[1].arg if len(ap.args.args) > 1 else "method"
+    try:
+        reach = {}
+        for name in public + ["apply_function"]:
+            short = name.replace("normal_to_", "").replace("normal_", "").replace("apply_", "")
+            for key in sorted({name, short}):
+                reach[key] = select(ap, key_param, key)
+        unknown = select(ap, key_param, "no_such_transformation_xyz")
+    except DispatchError as e:
+        ctx.undecided(rule, TF + "::apply", "dispatch not interpretable: %s" % e)
+        reach, unknown = None, None
+    if reach is not None:
+        got = sorted(set(reach.values()) - {"apply_function", None, "<raise>"})
+        ctx.check(got == sorted(public), rule, TF + "::apply", "dispatch reaches every exported transformation: %s" % got, "dispatch")
+        wrong = {k: v for k, v in reach.items() if v is None or v == "<raise>" or not (v == k or v.replace("normal_to_", "").replace("normal_", "").replace("apply_", "") == k)}
+        ctx.check(not wrong, rule, TF + "::apply", "each method string selects the transformation of that name (full and short names interpreted: %d)%s" % (len(reach), "" if not wrong else "; wrong: %s" % wrong), "dispatch-names")
+        ctx.check(unknown == "<raise>", rule, TF + "::apply", "an unknown method name raises (got %s)" % unknown, "dispatch-unknown")
     af = prog.func(TF, "apply_function")
     body = [norm_stmt(s) for s in af.body]
     want_tail = ["data = fld[field]", "(name, save) = fld.get_store_config(store, default=field)", "if process: data = _pre_process(fld, data, keep_mean=keep_mean)", "data = function(data, **kwargs)",
